@@ -457,7 +457,9 @@ impl Workload for Search {
                     let timed_out = all.iter().any(|s| s.starts_with("Query timed out"));
                     if timed_out && t0.elapsed().as_millis() >= 1000 { out.verdict = Verdict::Inconclusive("solve_all() really took more than a second (machine stall)".into()); return out; }
                     if !timed_out && all.len() < MAX_ANSWERS {
+                        let t1 = std::time::Instant::now();
                         let s1 = solve(Rc::clone(&sn2));
+                        if s1.starts_with("Query timed out") && t1.elapsed().as_millis() >= 1000 { let _ = take_output(); out.verdict = Verdict::Inconclusive("solve() really took more than a second (machine stall)".into()); return out; }
                         let r2 = next_solution(Rc::clone(&sn2));
                         let o = take_output();
                         out.evals += 2;
